@@ -155,7 +155,26 @@ func renderGff(ref string, feats []vfeat) []byte {
 	var b bytes.Buffer
 	b.WriteString("##gff-version 3\n")
 	fmt.Fprintf(&b, "##sequence-region ref 1 %d\n", len(ref))
+	b.WriteString("#a comment line\n")
+	fmt.Fprintf(&b, "ref\t.\tregion\t1\t%d\t.\t+\t.\tID=ref:1..%d;Is_circular=false\n", len(ref), len(ref))
 	for fi, f := range feats {
+		if f.kind == "CDS" {
+			// features of other types are to be ignored
+			lo, hi := f.segs[0][0], f.segs[0][1]
+			for _, sg := range f.segs {
+				if sg[0] < lo {
+					lo = sg[0]
+				}
+				if sg[1] > hi {
+					hi = sg[1]
+				}
+			}
+			st := "+"
+			if f.strand == -1 {
+				st = "-"
+			}
+			fmt.Fprintf(&b, "ref\t.\tgene\t%d\t%d\t.\t%s\t.\tID=gene%d;Name=gene%d\n", lo, hi, st, fi, fi)
+		}
 		typ := "CDS"
 		if f.kind == "mat" {
 			typ = "mature_protein_region_of_CDS"
@@ -188,9 +207,13 @@ func renderGff(ref string, feats []vfeat) []byte {
 		}
 		for _, i := range order {
 			attrs := "ID=f" + itoa(fi)
+			if f.kind == "CDS" {
+				attrs += ";Parent=gene" + itoa(fi)
+			}
 			if f.named {
 				attrs += ";Name=" + f.name
 			}
+			attrs += ";Note=synthetic,feature"
 			ph := itoa(phases[i])
 			fmt.Fprintf(&b, "ref\t.\t%s\t%d\t%d\t.\t%s\t%s\t%s\n", typ, f.segs[i][0], f.segs[i][1], strand, ph, attrs)
 		}
